@@ -30,17 +30,18 @@ const KINDS: [Kind; 3] = [
 #[derive(Debug, PartialEq, Eq, Clone)]
 enum Exp {
     Text(usize), // valid UTF-8 of that many bytes, starting at the fixed offset
-    Utf8,
+    /// invalid UTF-8 before the first NUL: where the valid prefix ends and how long the offending sequence is (the
+    /// value the error carries, as computed over the text bytes alone)
+    Utf8(usize, Option<usize>),
     MissingNul,
 }
 fn expect(content: &[u8]) -> Exp {
     match content.iter().position(|&b| b == 0) {
         None => Exp::MissingNul,
         Some(i) => {
-            if std::str::from_utf8(&content[..i]).is_ok() {
-                Exp::Text(i)
-            } else {
-                Exp::Utf8
+            match std::str::from_utf8(&content[..i]) {
+                Ok(_) => Exp::Text(i),
+                Err(e) => Exp::Utf8(e.valid_up_to(), e.error_len()),
             }
         }
     }
@@ -49,13 +50,13 @@ fn expect(content: &[u8]) -> Exp {
 #[derive(Debug)]
 enum Got {
     Text { off: i64, len: usize, hash: u64 },
-    Utf8,
+    Utf8(usize, Option<usize>),
     MissingNul,
 }
 fn conv(r: Result<&str, StringError>, base: *const u8) -> Got {
     match r {
         Ok(s) => Got::Text { off: rel(s, base), len: s.len(), hash: hash::hash_bytes(s.as_bytes()) },
-        Err(StringError::Utf8(_)) => Got::Utf8,
+        Err(StringError::Utf8(e)) => Got::Utf8(e.valid_up_to(), e.error_len()),
         Err(StringError::MissingNul(_)) => Got::MissingNul,
     }
 }
@@ -83,26 +84,27 @@ fn judge(ctx: &mut Ctx, kind: &Kind, content: &[u8], r: Out<Got>, seam: &'static
                     ctx.ob("str.len", *len as u64);
                     ctx.ob("str.hash", *hash);
                 }
-                Got::Utf8 => ctx.ob("str.utf8err", 1),
+                Got::Utf8(v, l) => ctx.ob("str.utf8err", 1 + *v as u64 * 8 + l.unwrap_or(7) as u64),
                 Got::MissingNul => ctx.ob("str.nonul", 1),
             }
             let ok = match (&g, &exp) {
                 (Got::Text { off, len, hash }, Exp::Text(n)) => *off == kind.fixed as i64 && len == n && *hash == hash::hash_bytes(&content[..*n]),
-                (Got::Utf8, Exp::Utf8) => true,
+                (Got::Utf8(v, l), Exp::Utf8(ev, el)) => v == ev && l == el,
                 (Got::MissingNul, Exp::MissingNul) => true,
                 _ => false,
             };
             if ok {
                 ctx.class(match exp {
                     Exp::Text(_) => "parse:text",
-                    Exp::Utf8 => "parse:utf8-error",
+                    Exp::Utf8(..) => "parse:utf8-error",
                     Exp::MissingNul => "parse:missing-nul",
                 });
             } else {
                 let k = match (&g, &exp) {
                     (Got::Text { .. }, Exp::MissingNul) => "terminator-outside-declared-size",
                     (Got::Text { .. }, Exp::Text(_)) => "wrong-text",
-                    (Got::Text { .. }, Exp::Utf8) => "invalid-utf8-accepted",
+                    (Got::Text { .. }, Exp::Utf8(..)) => "invalid-utf8-accepted",
+                    (Got::Utf8(..), Exp::Utf8(..)) => "wrong-error-value",
                     (_, Exp::Text(_)) => "valid-text-refused",
                     _ => "wrong-error",
                 };
@@ -368,6 +370,14 @@ fn build_side(ctx: &mut Ctx) {
             }
         }
     }
+    // texts that already end in NUL, of every length 1..=17 (the stored bytes then end on every residue modulo 8)
+    for n in 0..=16usize {
+        let mut t: String = (0..n).map(|i| (b'a' + (i % 26) as u8) as char).collect();
+        t.push('\0');
+        if !texts.contains(&t) {
+            texts.push(t);
+        }
+    }
     // texts as boot loaders pass them
     for t in ["/boot/initrd.img root=/dev/ram0 quiet", "/boot/vmlinuz-6.1 root=UUID=0a1b ro quiet splash", "(hd0,1)/boot/kernel.elf --serial com1", "\"quoted module\" arg", "'single' arg", "console=ttyS0,115200n8 ", " root=/dev/sda1", "BOOT_IMAGE=/vmlinuz init=/bin/sh --", "GRUB 2.06", "GRUB 2.12~rc1-1", "Limine 5.20231207.1", "rEFInd 0.14", "a  b", "--", "/", "/ x", "x /y z", "key=\"v w\" k2='x'", "C:\\EFI\\boot\\bootx64.efi arg", "tab\tseparated\targs", "line1\nline2"] {
         texts.push(t.to_string());
@@ -383,23 +393,27 @@ fn build_side(ctx: &mut Ctx) {
                     match kind.typ {
                         bi::CMDLINE => {
                             let t = CommandLineTag::new(text);
-                            (t.header().size, t.as_bytes().to_vec(), t.cmdline().map(|s| s.to_string()).map_err(|_| ()))
+                            (t.header().size, t.as_bytes().to_vec(), t.cmdline().map(|s| s.to_string()).map_err(|_| ()), std::mem::size_of_val(&*t))
                         }
                         bi::BOOTLOADER => {
                             let t = BootLoaderNameTag::new(text);
-                            (t.header().size, t.as_bytes().to_vec(), t.name().map(|s| s.to_string()).map_err(|_| ()))
+                            (t.header().size, t.as_bytes().to_vec(), t.name().map(|s| s.to_string()).map_err(|_| ()), std::mem::size_of_val(&*t))
                         }
                         _ => {
                             let t = ModuleTag::new(0x1000, 0x2fff, text);
-                            (t.header().size, t.as_bytes().to_vec(), t.cmdline().map(|s| s.to_string()).map_err(|_| ()))
+                            (t.header().size, t.as_bytes().to_vec(), t.cmdline().map(|s| s.to_string()).map_err(|_| ()), std::mem::size_of_val(&*t))
                         }
                     }
                 });
-                let Out::Val((size, bytes, back)) = r else {
+                let Out::Val((size, bytes, back, sov)) = r else {
                     ctx.violation(&format!("c17/build/panic/{}", kind.name), || format!("constructor panicked for text {:?}", text));
                     return;
                 };
                 ctx.ob("build.size", size as u64);
+                // the boxed tag occupies exactly its size rounded up to 8 (a builder copies the whole box)
+                if sov != round8(size as usize) {
+                    ctx.violation(&format!("c17/build/in-memory-size/{}", kind.name), || format!("text {:?}: size field {} but the boxed tag occupies {} bytes", text, size, sov));
+                }
                 let tb = text.as_bytes();
                 let has_nul = tb.contains(&0);
                 let stored_want: Vec<u8> = if tb.last() == Some(&0) { tb.to_vec() } else { [tb, &[0]].concat() };
